@@ -8,6 +8,7 @@ import (
 	"math/rand"
 	"os"
 	"path/filepath"
+	"sort"
 	"strings"
 	"sync"
 	"time"
@@ -140,8 +141,21 @@ func checkC17(c *Ctx) {
 			g.Tags = append(g.Tags, model.Tag{TK: "c", To: 2 + i, Size: 200})
 			roots = append(roots, cases.RootSpec{O: model.Oid{K: "g", I: i + 1}, Walk: true, IsRef: true, Name: fmt.Sprintf("refs/tags/t%d", i), Kind: "plain"})
 		}
+		// one directory checked in at several places of one tree, at different depths (d1/d2/d3/s, d1/d2/z, d1/z, z): four
+		// different trees wait for it, and it holds the biggest blob -- whichever of them names it must be the same every time
+		names[4], names[5], names[6], names[7], names[8], names[9] = []byte("big.bin"), []byte("s"), []byte("d3"), []byte("d2"), []byte("d1"), []byte("z")
+		g.Blobs = append(g.Blobs, 500)
+		g.Trees = append(g.Trees,
+			[]model.Entry{{K: "file", To: 4, N: 4, NL: 7}},                                                                   // t4: the shared directory
+			[]model.Entry{{K: "tree", To: 4, N: 5, NL: 1}},                                                                   // t5 = d3: s
+			[]model.Entry{{K: "tree", To: 5, N: 6, NL: 2}, {K: "tree", To: 4, N: 9, NL: 1}},                                  // t6 = d2: d3, z
+			[]model.Entry{{K: "tree", To: 6, N: 7, NL: 2}, {K: "tree", To: 4, N: 9, NL: 1}},                                  // t7 = d1: d2, z
+			[]model.Entry{{K: "file", To: 1, N: 1, NL: 1}, {K: "tree", To: 7, N: 8, NL: 2}, {K: "tree", To: 4, N: 9, NL: 1}}) // t8: a, d1, z
+		g.Commits = append(g.Commits, model.Commit{Tree: 8, Parents: []int{1}, Size: 400})
+		roots = append(roots, cases.RootSpec{O: model.Oid{K: "c", I: len(g.Commits)}, Walk: true, IsRef: true, Name: "refs/heads/shared", Kind: "plain"})
+		sort.SliceStable(roots, func(i, j int) bool { return roots[i].Name < roots[j].Name })
 		g.Normalize()
-		sc := cases.ScanCase{ID: "ties", G: g, Roots: roots, Names: names, Style: "full", Dates: []int64{1000000000, 1000000000, 1000000000, 1000000000, 1000000000, 1000000000, 1000000000}}
+		sc := cases.ScanCase{ID: "ties", G: g, Roots: roots, Names: names, Style: "full", Dates: []int64{1000000000, 1000000000, 1000000000, 1000000000, 1000000000, 1000000000, 1000000000, 1000000000}}
 		base, _ := os.MkdirTemp(c.Scratch, "ties-")
 		repoDir := filepath.Join(base, "r")
 		tiesRepo, err := materialiseCase(repoDir, &sc)
